@@ -598,7 +598,7 @@ class C05(Prop):
         nrec = 300000000
         for f in self.fmts:
             rl = 32 if f == 'fa' else 64
-            for cap in ([4096, 65536] if tier == 'quick' else [64, 4096, 65536, 1000000]):
+            for cap in ([4096, 65536] if tier == 'quick' else [64, 4096, 65536, 262144]):
                 ops, cur = ['N'], 1
                 for _ in range(8):
                     far = (1 << 32) // rl
